@@ -20,7 +20,7 @@ RULE = ("(a) every command class is constructed over comm 0..255, counts 1..125,
         "command class, argument class) tuples + distinct transaction ids seen")
 ASSUMPTIONS = ["the decoders in refcodec follow the Modbus specification (big-endian fields, CRC lo-hi, MBAP length = bytes "
                "that follow) and the AA55 framing stated in the property"]
-MUST = ["dt_export_limit_by_model_line", "es_setter_sequences_decoded", "auto_detected_object_frames", "aa55_over_both_transports", "overlapping_polls_txids", "rmw_with_padded_read_answers", "named_single_reads", "dt_fallback_model_query", "tcp_connect_failures_between_requests", "tcp_session_dropped_between_requests", "contract_eval_create_modbus_rtu_request", "contract_eval_create_modbus_tcp_request",
+MUST = ["named_reads_of_calculated_ids", "answers_with_foreign_transaction_id", "dt_export_limit_by_model_line", "es_setter_sequences_decoded", "auto_detected_object_frames", "aa55_over_both_transports", "overlapping_polls_txids", "rmw_with_padded_read_answers", "named_single_reads", "dt_fallback_model_query", "tcp_connect_failures_between_requests", "tcp_session_dropped_between_requests", "contract_eval_create_modbus_rtu_request", "contract_eval_create_modbus_tcp_request",
         "contract_eval_create_modbus_rtu_multi_request", "contract_eval_create_modbus_tcp_multi_request",
         "txid_wraps", "negative_values", "aa55_negative_values", "wire_ops_matched", "wire_retransmissions",
         "classes_constructed", "protocol_object_commands"]
@@ -242,6 +242,9 @@ def wire_ops(spec, part):
                 return None
             return _o(req, kind)
         sim.handle = handle
+        if transport == "tcp" and rnd.random() < 0.3:
+            sim.resp_txid = rnd.choice((1, 0x0001, 0xFFFF, "prev", 0x1234))       # gateway that answers with a fixed / stale transaction id
+            part.count("answers_with_foreign_transaction_id")
         sc = {"transport": transport, "framing": framing, "keep_alive": rnd.random() < 0.6, "T": 1, "R": 3,
               "comm": rnd.choice((0, 0x11, 0xF7, 0xFE)), "family": rnd.choice(("ET", "DT")),
               "tasks": [{"start": 0.0, "steps": steps}]}
@@ -317,8 +320,6 @@ def named_reads(spec, part):
             inv = models.family_cls(g, fam)("inv0", port, comm, 1, 0)
             await inv.read_device_info()
             for sn in list(inv.sensors()) + list(inv.settings()):
-                if getattr(sn, "size_", 0) <= 0:
-                    continue
                 n0 = len(sim.log)
                 role = "setting" if sn.id_ in {x.id_ for x in inv.settings()} and sn in tuple(inv.settings()) else "sensor"
                 try:
@@ -343,6 +344,14 @@ def named_reads(spec, part):
                 bad(part, framing, "request-carries-wrong-arguments",
                     f"{fam} port {port} configured comm {want_comm}: transmission #{n} ({req['kind']} {req['reg']}) is addressed to {req['comm']}", case)
         for role, sid, off, size, reqs in items:
+            # (whatever the id - calculated values and labels have no registers of their own -, a read on the wire asks for 1..125 registers)
+            for r in reqs:
+                if r["kind"] == "read" and not 1 <= r["count"] <= 125:
+                    bad(part, framing, "request-carries-wrong-arguments",
+                        f"{fam} {role} {sid}: the single read put a request for {r['count']} registers at {r['reg']} on the wire", case)
+            if size <= 0:
+                part.count("named_reads_of_calculated_ids")
+                continue
             part.count("named_single_reads")
             # (block-served ids - calculated values, two-word bitmaps - poll whole blocks; a direct read must cover the item exactly)
             direct = [r for r in reqs if r["kind"] == "read" and r["reg"] == off]
